@@ -4,6 +4,7 @@ import (
 	"fmt"
 	"math"
 	"math/big"
+	"os"
 	"strconv"
 	"strings"
 	"testing"
@@ -17,11 +18,16 @@ import (
 // Proposed known-finding ids for the numeric functions (see notes/C34.md).
 const (
 	kfCeilFloorSat = "C34-ceil-floor-int64-saturation" // CEIL/FLOOR of a DECIMAL/DOUBLE beyond the BIGINT range returns ±2^63
-	kfAbsMinInt    = "C34-abs-minint64"                // ABS(-9223372036854775808) returns the argument
+	kfAbsMinInt    = "C34-abs-min-signed-integer"      // ABS(-128 | -32768 | -2147483648 | -9223372036854775808) returns the argument
 	kfSignRounds   = "C34-sign-rounds-to-integer"      // SIGN(x) = 0 for 0 < |x| < 0.5 (argument converted to BIGINT first)
-	// CEIL/FLOOR of a DECIMAL column round the stored value in place: the row (and, in the
-	// memory backend, the table) holds the rounded value afterwards
-	kfCeilMutates = "C34-ceil-floor-mutate-stored-decimal"
+	// CEIL/FLOOR call apd's Ceil/Floor with the argument as destination (aliasing). Two
+	// symptoms: (1) the argument value is rounded in place — a DECIMAL column value changes in
+	// the row and, in the memory backend, in the table; (2) CEIL(x) = 0 for 0 < x < 0.1 and
+	// FLOOR(x) = 0 for -0.1 < x < 0
+	kfCeilAlias = "C34-ceil-floor-aliased-decimal"
+	// ROUND of a BIGINT UNSIGNED value declares a signed result type: an enclosing ROUND (or
+	// any consumer that converts by type) saturates values >= 2^63 to 9223372036854775807
+	kfRoundUnsigned = "C34-round-unsigned-declared-signed"
 	// MOD on DECIMALs fails with "division impossible" when the integer quotient has more
 	// digits than both operands
 	kfModImpossible = "C34-mod-division-impossible"
@@ -99,8 +105,23 @@ func TestC34Num(t *testing.T) {
 		}
 		xl := genDecimal(rt, "x", maxDigits)
 		x := rat(xl)
+		isBigUnsignedInt := func() bool {
+			return !strings.Contains(xl, ".") && x.Cmp(maxInt64Rat) > 0 && x.Cmp(new(big.Rat).SetInt(new(big.Int).SetUint64(math.MaxUint64))) <= 0
+		}
+		if excluding(kfRoundUnsigned) && isBigUnsignedInt() {
+			// region of the listed finding: an integer literal in 2^63 … 2^64-1; written as a DECIMAL instead
+			st.Excluded(kfRoundUnsigned)
+			xl += ".0"
+		}
+		bigUnsigned := isBigUnsignedInt()
 		signExcl := excluding(kfSignRounds)
 		smallFrac := func(v *big.Rat) bool { return v.Sign() != 0 && ratAbs(v).Cmp(big.NewRat(1, 2)) < 0 }
+		if kf.Listed(kfCeilAlias) && os.Getenv("VERIF_C34_NOEXCLUDE") == "" && x.Sign() != 0 && ratAbs(x).Cmp(big.NewRat(1, 10)) < 0 {
+			// region of the listed finding (symptom 2): 0 < |x| < 0.1
+			st.Excluded(kfCeilAlias)
+			xl = strings.Replace(xl, "0.", "3.", 1)
+			x = rat(xl)
+		}
 		if signExcl && smallFrac(x) {
 			// region of the listed finding: 0 < |x| < 0.5 — move x out of it
 			st.Excluded(kfSignRounds)
@@ -115,13 +136,14 @@ func TestC34Num(t *testing.T) {
 		var iv int64
 		switch rapid.IntRange(0, 3).Draw(rt, "iClass") {
 		case 0:
-			iv = rapid.SampledFrom([]int64{0, 1, -1, 5, -5, 15, 25, -15, 45, 50, 55, 149, 150, 999, 1000, -1000, math.MaxInt64, math.MinInt64 + 1, math.MinInt64, math.MaxInt32, math.MinInt32}).Draw(rt, "i")
+			iv = rapid.SampledFrom([]int64{0, 1, -1, 5, -5, 15, 25, -15, 45, 50, 55, 149, 150, 999, 1000, -1000, math.MaxInt64, math.MinInt64 + 1, math.MinInt64, math.MaxInt32, math.MinInt32, math.MinInt16, math.MinInt8, 127, 128, 32767, 32768}).Draw(rt, "i")
 		case 1:
 			iv = int64(rapid.IntRange(-2000, 2000).Draw(rt, "i"))
 		default:
 			iv = int64(genUint64(rt, "i"))
 		}
-		if iv == math.MinInt64 && excluding(kfAbsMinInt) {
+		isMinSigned := iv == math.MinInt64 || iv == math.MinInt32 || iv == math.MinInt16 || iv == math.MinInt8
+		if isMinSigned && excluding(kfAbsMinInt) {
 			st.Excluded(kfAbsMinInt)
 			iv++
 		}
@@ -205,7 +227,14 @@ func TestC34Num(t *testing.T) {
 			}
 			return ""
 		})
-		add("ROUND(ROUND(x,d),d) = ROUND(x,d)", f("ROUND(ROUND(%s,%s),%s)", X, D, D), []string{"x", "d"}, wantRat(refRound(x, d)))
+		add("ROUND(ROUND(x,d),d) = ROUND(x,d)", f("ROUND(ROUND(%s,%s),%s)", X, D, D), []string{"x", "d"}, wantRat(refRound(x, d))).known = func(v any, err error) string {
+			// signature: x is an unsigned integer literal >= 2^63 (literal rendering) and the nested
+			// ROUND returns the BIGINT maximum
+			if r, ok := num(v); err == nil && bigUnsigned && !as.columns && ok && r.Cmp(maxInt64Rat) == 0 {
+				return kfRoundUnsigned
+			}
+			return ""
+		}
 		add("ROUND(x) = ROUND(x,0)", f("ROUND(%s)", X), []string{"x"}, wantRat(refRound(x, 0)))
 		add("TRUNCATE(x,d) truncates toward zero", f("TRUNCATE(%s,%s)", X, D), []string{"x", "d"}, func(v any) string {
 			r, ok := num(v)
@@ -259,17 +288,34 @@ func TestC34Num(t *testing.T) {
 			}
 		}
 		XF := X
-		if as.columns && kf.Listed(kfCeilMutates) { // no signature predicate: always excluded by construction while listed
+		if as.columns && kf.Listed(kfCeilAlias) { // no signature predicate: always excluded by construction while listed
 			// region of the listed finding: FLOOR/CEIL applied to a DECIMAL column value. They get
 			// the literal instead, so that the other identities still see the stored value.
-			st.Excluded(kfCeilMutates)
+			st.Excluded(kfCeilAlias)
 			XF = as.args[0].lit
 			if as.args[0].null {
 				XF = "NULL"
 			}
 		}
-		add("FLOOR(x) <= x < FLOOR(x)+1", f("FLOOR(%s)", XF), []string{"x"}, floorCheck(x, floorRat(x))).known = knownSat(floorRat(x))
-		add("CEIL(x)-1 < x <= CEIL(x)", f("CEIL(%s)", XF), []string{"x"}, ceilCheck(x, ceilRat(x))).known = knownSat(ceilRat(x))
+		// signature of symptom (2): |x| < 0.1, the exact result is ±1 and 0 came back
+		knownSmall := func(arg *big.Rat, want *big.Int) func(any, error) string {
+			return func(v any, err error) string {
+				if r, ok := num(v); err == nil && ok && r.Sign() == 0 && want.Sign() != 0 && ratAbs(arg).Cmp(big.NewRat(1, 10)) < 0 {
+					return kfCeilAlias
+				}
+				return ""
+			}
+		}
+		either := func(a, b func(any, error) string) func(any, error) string {
+			return func(v any, err error) string {
+				if id := a(v, err); id != "" {
+					return id
+				}
+				return b(v, err)
+			}
+		}
+		add("FLOOR(x) <= x < FLOOR(x)+1", f("FLOOR(%s)", XF), []string{"x"}, floorCheck(x, floorRat(x))).known = either(knownSat(floorRat(x)), knownSmall(x, floorRat(x)))
+		add("CEIL(x)-1 < x <= CEIL(x)", f("CEIL(%s)", XF), []string{"x"}, ceilCheck(x, ceilRat(x))).known = either(knownSat(ceilRat(x)), knownSmall(x, ceilRat(x)))
 		// CEILING(x) = -FLOOR(-x): the negations are done by the harness (the negated literal is
 		// written out, the result is compared with -CEIL(x)) so that the identity does not depend
 		// on the unary minus operator, which is C25's subject
@@ -281,7 +327,7 @@ func TestC34Num(t *testing.T) {
 			}
 		}
 		negCeil := new(big.Int).Neg(ceilRat(x))
-		add("FLOOR(-x) = -CEILING(x)", f("FLOOR(%s)", negX), []string{"x"}, floorCheck(new(big.Rat).Neg(x), negCeil)).known = knownSat(negCeil)
+		add("FLOOR(-x) = -CEILING(x)", f("FLOOR(%s)", negX), []string{"x"}, floorCheck(new(big.Rat).Neg(x), negCeil)).known = either(knownSat(negCeil), knownSmall(x, negCeil))
 		add("ABS(x)", f("ABS(%s)", X), []string{"x"}, wantRat(ratAbs(x)))
 		knownSign := func(arg *big.Rat) func(any, error) string {
 			return func(v any, err error) string {
@@ -310,7 +356,8 @@ func TestC34Num(t *testing.T) {
 			return wantRat(ratAbs(ir))(v)
 		})
 		it.known = func(v any, err error) string {
-			if r, ok := num(v); err == nil && iv == math.MinInt64 && ok && r.Cmp(minInt64Rat) == 0 {
+			// signature: i is the minimum of a signed integer width and comes back unchanged
+			if r, ok := num(v); err == nil && isMinSigned && ok && r.Cmp(ir) == 0 {
 				return kfAbsMinInt
 			}
 			return ""
